@@ -118,6 +118,10 @@ type gen struct {
 	assignErr error
 	frameProps []string
 	opaques map[string]*opaqueDef
+	loopHavoc bool // the havoc in progress is a loop cut, not a call
+	stableCells []stableCell
+	astValid bool // assume theory ast-valid about go/ast node fields
+	nilArgs bool  // assume/guarantee: pointer-to-node and receiver arguments of repository calls are non-nil
 	curCall *ssa.CallCommon
 	allocVars map[token.Pos]*ssa.Alloc
 	pendingGo []func() // effects of spawned goroutines, re-applied at the join
@@ -234,6 +238,9 @@ func (g *gen) heapInit(key, sort string) string {
 	if _, ok := g.heapSort[key]; !ok {
 		g.heapSort[key] = sort
 		g.declare(name, sort)
+		if g.astValid {
+			g.astValidAxioms(key, name, sort)
+		}
 	}
 	return name
 }
@@ -255,6 +262,68 @@ func (g *gen) heapSet(key, sort, term string) {
 }
 
 func (g *gen) heapHavoc(key string) {
+	if g.astValid && strings.HasPrefix(key, "F|go/ast.") {
+		// the syntax tree is not written by checkers (that is property C05, assumed by this sweep)
+		g.assumed["syntax-tree fields are never written (property C05) - assumed by the sweep"] = true
+		return
+	}
+	old := ""
+	if g.astValid && (key == "E|Iface" || key == "E|Int") {
+		old = g.cur.heap[key]
+		if old == "" {
+			if _, known := g.heapSort[key]; known {
+				old = "H0_" + sanitize(key)
+			}
+		}
+	}
+	if strings.HasPrefix(key, "C|") && len(g.stableCells) > 0 && !g.loopHavoc {
+		prev := g.cur.heap[key]
+		if prev == "" {
+			if _, known := g.heapSort[key]; known {
+				prev = "H0_" + sanitize(key)
+			}
+		}
+		if prev != "" {
+			defer func() {
+				cur := g.cur.heap[key]
+				if cur == "" || cur == prev {
+					return
+				}
+				for _, sc := range g.stableCells {
+					if sc.key == key {
+						g.assumeGlobal(eq(app("select", cur, sc.ref), app("select", prev, sc.ref)))
+					}
+				}
+			}()
+		}
+	}
+	var oldF, nowF string
+	if strings.HasPrefix(key, "F|") && !g.loopHavoc && g.e.writtenKeys != nil && !g.e.writtenKeys[key] && isRepoKey(key) {
+		if cur, ok := g.cur.heap[key]; ok {
+			oldF = cur
+		} else if _, known := g.heapSort[key]; known {
+			oldF = "H0_" + sanitize(key)
+		}
+		nowF = g.now()
+	}
+	defer func() {
+		if oldF != "" {
+			if cur := g.cur.heap[key]; cur != "" && cur != oldF {
+				// a field that is only ever written on objects under construction keeps its value on every existing object
+				o := g.freshName("cf")
+				g.assumed["fields written only during construction keep their values across calls (syntactic whole-repository scan)"] = true
+				g.assumeGlobal(fmt.Sprintf("(forall ((%s Int)) (! (=> (<= (birth %s) %s) (= (select %s %s) (select %s %s))) :pattern ((select %s %s))))", o, o, nowF, cur, o, oldF, o, cur, o))
+			}
+		}
+	}()
+	defer func() {
+		if old != "" && g.declared["astlist"] {
+			if cur := g.cur.heap[key]; cur != "" && cur != old {
+				b := g.freshName("alb")
+				g.assumeGlobal(fmt.Sprintf("(forall ((%s Int)) (! (=> (astlist %s) (= (select %s %s) (select %s %s))) :pattern ((select %s %s))))", b, b, cur, b, old, b, cur, b))
+			}
+		}
+	}()
 	sort, ok := g.heapSort[key]
 	if !ok && g.knownSorts != nil {
 		if s2, ok2 := g.knownSorts[key]; ok2 {
@@ -518,6 +587,10 @@ func (g *gen) introduce(v Val, define bool) Val {
 		case "Slice":
 			g.aliveNow(app("s_base", v.T))
 		}
+	}
+	if v.Sort == "Iface" && v.Typ != nil && g.astValid && noTypedNil(v.Typ) {
+		// syntax-tree and go/types interface values never hold typed nil pointers
+		g.assumeGlobal(implies(not(eq(app("i_tag", v.T), "0")), not(eq(app("i_val", v.T), "0"))))
 	}
 	switch v.Sort {
 	case "Slice":
@@ -1251,10 +1324,12 @@ func (g *gen) loopHeader(li *loopInfo, phis []*ssa.Phi, initOf func(*ssa.Phi) st
 	}
 	sort.Strings(ks)
 	nowBefore := g.now()
+	g.loopHavoc = true
 	for _, k := range ks {
 		g.heapHavoc(k)
 		g.assumeFrame(k)
 	}
+	g.loopHavoc = false
 	if li.mod["NOW"] {
 		g.assume(app(">=", g.now(), nowBefore))
 	}
@@ -1413,4 +1488,23 @@ func (g *gen) assumeFrame(key string) {
 		}
 	}
 	g.assumeGlobal(fmt.Sprintf("(forall ((%s Int)) (! (=> %s (= (select %s %s) (select %s %s))) :pattern ((select %s %s))))", o, and(conds...), cur, o, init, o, cur, o))
+}
+
+func noTypedNil(t types.Type) bool {
+	n, ok := types.Unalias(t).(*types.Named)
+	if !ok || n.Obj().Pkg() == nil {
+		return false
+	}
+	switch n.Obj().Pkg().Path() {
+	case "go/ast", "go/types":
+		_, isI := n.Underlying().(*types.Interface)
+		return isI
+	}
+	return false
+}
+
+// isRepoKey: the heap key belongs to a struct type declared in the repository
+func isRepoKey(key string) bool {
+	rest := strings.TrimPrefix(key, "F|")
+	return strings.HasPrefix(rest, "checkers") || strings.HasPrefix(rest, "linter.") || strings.HasPrefix(rest, "cmd/")
 }
